@@ -207,6 +207,97 @@ fn rules_on<G: GraphLike>(family: &'static str, index: u64, backend: &str, g: &G
     accepted
 }
 
+/// Walk of accepted rule applications on the same object (see C04 `rule_walk`), judged under
+/// every (sampled) assignment after each step: parities and conditional scalar factors
+/// accumulate along the walk, which single applications to fresh diagrams never show.
+fn rule_walk_vars<G: GraphLike>(family: &'static str, index: u64, backend: &str, r: &mut Rng, mut g: G, desc: &serde_json::Value) -> u64 {
+    let cx = ctx();
+    let mut vars = graph_vars(&g);
+    if !vars.contains(&0) {
+        vars.insert(0, 0);
+    }
+    let assigns = pick_assignments(&vars);
+    let Ok(before) = eval_all(&g, &assigns) else {
+        cx.skipped();
+        return 0;
+    };
+    let mut trail: Vec<String> = vec![];
+    let mut applied = 0u64;
+    for _ in 0..12 {
+        let mut args: Vec<V> = g.vertices().collect();
+        args.sort();
+        if args.is_empty() {
+            break;
+        }
+        let mut found = None;
+        for _ in 0..80 {
+            let (rule, ar, _) = *r.pick(&RULES);
+            let a = *r.pick(&args);
+            let b = if ar == Arity::One {
+                a
+            } else {
+                let nb: Vec<V> = g.neighbors(a).collect();
+                if nb.is_empty() || r.chance(0.3) {
+                    *r.pick(&args)
+                } else {
+                    *r.pick(&nb)
+                }
+            };
+            if guarded(|| check_rule(rule, &g, a, b)).unwrap_or(false) {
+                found = Some((rule, a, b));
+                break;
+            }
+        }
+        let Some((rule, a, b)) = found else { break };
+        let involves_vars = !g.vars(a).is_empty() || !g.vars(b).is_empty();
+        let prev = graph_json(&g);
+        trail.push(format!("{rule}({a},{b})"));
+        let detail = |what: &str, extra: serde_json::Value| json!({"what": what, "rule": rule, "args": [a, b], "backend": backend, "diagram": desc, "steps": trail, "graph_before_step": prev, "extra": extra});
+        if let Err(e) = guarded(|| apply_unchecked(rule, &mut g, a, b)) {
+            if !matches!(e, Caught::Oracle(_)) {
+                cx.violation(&format!("{rule}|panic-after-accept|vars|in-walk"), family, index, detail("panic", json!(e.text())));
+            }
+            return applied;
+        }
+        applied += 1;
+        cx.count(&format!("walk-step:{rule}"), 1);
+        if involves_vars {
+            cx.count("walk-steps-with-vars-on-args", 1);
+        }
+        match compare_all(&before, &g, &assigns) {
+            Ok(None) => {}
+            Ok(Some((i, t))) => {
+                let factors: Vec<String> = g.scalar_factors().map(|(e, s)| format!("{e:?} -> {s}")).collect();
+                cx.violation(
+                    &format!("{rule}|map-changed-under-assignment|in-walk"),
+                    family,
+                    index,
+                    detail("instantiated map differs", json!({"assignment": assign_json(&assigns[i]), "before": before[i].brief(), "after": t.brief(), "result": graph_json(&g), "result_factors": factors})),
+                );
+                return applied;
+            }
+            Err(EvalError::IllFormed(m)) => {
+                cx.violation(&format!("{rule}|ill-formed-result|vars|in-walk"), family, index, detail("ill-formed", json!(m)));
+                return applied;
+            }
+            Err(EvalError::TooWide(_)) => {
+                cx.skipped();
+                return applied;
+            }
+        }
+    }
+    applied
+}
+
+fn check_walks(family: &'static str, index: u64, r: &mut Rng, d: &DDesc) {
+    let cx = ctx();
+    let desc = d.to_json();
+    let scr = if r.chance(0.3) { Some(r.next_u64()) } else { None };
+    let mut n = rule_walk_vars(family, index, "vec", r, d.build::<quizx::vec_graph::Graph>(scr).0, &desc);
+    n += rule_walk_vars(family, index, "hash", r, d.build::<quizx::hash_graph::Graph>(scr).0, &desc);
+    cx.case(family, if n > 0 && d.has_vars() { Some(d.hash()) } else { None });
+}
+
 fn simps_on<G: GraphLike>(family: &'static str, index: u64, backend: &str, build: &dyn Fn() -> G, desc: &serde_json::Value) -> u64 {
     let cx = ctx();
     let g0 = build();
@@ -409,6 +500,14 @@ pub fn run() {
         let gl = r.chance(0.5);
         let d = gen_long_sparse(r, 30, 80, PhasePool::CliffordHeavy, gl, 0.08);
         simps_only("vars-long-sparse", i, r, &d);
+    });
+    par_cases("vars-rule-walks", n_rand, move |r, i| {
+        let d = match r.below(3) {
+            0 => gen_random(r, &DiagParams { max_spiders: ms + 2, max_bnd: 3, pool: PhasePool::CliffordHeavy, graph_like: true, bare_wires: false, var_prob: 0.5 }),
+            1 => gen_gadget_rich(r, 4, PhasePool::CliffordHeavy, 0.5),
+            _ => gen_random(r, &DiagParams { max_spiders: ms + 1, max_bnd: 3, pool: PhasePool::CliffordHeavy, graph_like: false, bare_wires: true, var_prob: 0.4 }),
+        };
+        check_walks("vars-rule-walks", i, r, &d);
     });
     // many variables: parities with 8+ variables next to 1-2 variable ones, assignments sampled
     let nw = t.pick(600usize, 20_000usize);
